@@ -25,7 +25,7 @@ func init() {
 		Assumptions: []string{"generated protobuf getters are nil-safe", "stream.Send of a typed-nil response is an (empty) reply, not a panic"},
 		Tech:        "static analysis: path counting between Recv and Send, guarded-by-condition, field typestate nil-guard on SSA (server/go)",
 		NeedU2:      true,
-		Rules:       []func(*Ctx){ruleC19OneReply, ruleC19ProtocolState, ruleC19HandlerPublished, ruleC19SDKResultForwarded, ruleC19OneSessionFactory, ruleC19FreshStreamer, ruleC18ProtoMapping, ruleC19SessionNil, ruleC19NilSafeDecoding, ruleC19CloseOnExit, ruleC19PartitionVerbatim, ruleC19FreshHandler, nilContradictionRule("C19", true, "github.com/godaddy/asherah/server/go"), ruleC19HandlerClosedOnlyByStream, ruleC19NoSendLimit, ruleC19OptionDefaults, ruleC19NilableResultsChecked, ruleC19OptionComparedToItsOwnChoices, ruleC18SidecarNamesVerbatim},
+		Rules:       []func(*Ctx){ruleC19OneReply, ruleC19ProtocolState, ruleC19HandlerPublished, ruleC19SDKResultForwarded, ruleC19OneSessionFactory, ruleC19FreshStreamer, ruleC18ProtoMapping, ruleC19SessionNil, ruleC19NilSafeDecoding, ruleC19CloseOnExit, ruleC19PartitionVerbatim, ruleC19FreshHandler, nilContradictionRule("C19", true, "github.com/godaddy/asherah/server/go"), ruleC19HandlerClosedOnlyByStream, ruleC19NoSendLimit, ruleC19OptionDefaults, ruleC19NilableResultsChecked, ruleC19OptionComparedToItsOwnChoices, ruleC18SidecarNamesVerbatim, ruleC19ShutdownIsGraceful},
 	})
 }
 
